@@ -59,13 +59,24 @@ Definition present_of (u : option Z) (xs : xstore) : list string :=
   | Some v => match find (fun p => fst p =? v) (xs_present xs) with Some p => snd p | None => [] end
   end.
 
+(* DeleteAttribute removing the last value of an attribute makes the name disappear from the object *)
+Definition remove_names (u : option Z) (ns : list string) (pr : list (Z * list string)) : list (Z * list string) :=
+  match u with
+  | None => pr
+  | Some v => map (fun p => if fst p =? v
+                            then (fst p, filter (fun n => negb (existsb (String.eqb n) ns)) (snd p)) else p) pr
+  end.
+
 (* one batch item: the handler reads placeholder, version, identity and attribute policy from the engine object *)
 Definition step_item_t (xs : xstore) (t : transient) (xi : xitem) : xresp * xstore * transient :=
   let it := x_item xi in
   let '(r, st', ph') := step_item (t_ver t) (t_ident t) (xs_base xs) (t_ph t) it in
-  let present' := match r with
-                  | RIssued ids => xs_present xs ++ combine ids (x_present xi)
-                  | _ => xs_present xs
+  let present' := match i_op it, r with
+                  | _, RIssued ids => xs_present xs ++ combine ids (x_present xi)
+                  | OAddr ADeleteAttribute tgt, RFound =>
+                      if i_gate it then remove_names (resolve tgt (t_ph t)) (List.concat (x_present xi)) (xs_present xs)
+                      else xs_present xs
+                  | _, _ => xs_present xs
                   end in
   let r' := match i_op it, r with
             | OAddr AGetAttributeList tgt, RFound =>
